@@ -1089,24 +1089,30 @@ class ExcelCompiler:
 
     def _process_gen_graph(self):
 
-        while self.graph_todos:
-            # connect the dependant cells in the graph
-            dependant = self.graph_todos.pop()
+        try:
+            while self.graph_todos:
+                # connect the dependant cells in the graph
+                dependant = self.graph_todos.pop()
 
-            self.log.debug(f"Handling {dependant.address}")
+                self.log.debug(f"Handling {dependant.address}")
 
-            if (self._values_changed and dependant.formula and
-                    not dependant.needs_calc):
-                # left from a build which failed before a value was
-                # changed, its stored result is not known to be good
-                self._reset(dependant)
+                if (self._values_changed and dependant.formula and
+                        not dependant.needs_calc):
+                    # left from a build which failed before a value was
+                    # changed, its stored result is not known to be good
+                    self._reset(dependant)
 
-            for precedent_address in dependant.needed_addresses:
-                if precedent_address.address not in self.cell_map:
-                    self._gen_graph(precedent_address, recursed=True)
+                for precedent_address in dependant.needed_addresses:
+                    if precedent_address.address not in self.cell_map:
+                        self._gen_graph(precedent_address, recursed=True)
 
-                self.dep_graph.add_edge(
-                    self.cell_map[precedent_address.address], dependant)
+                    self.dep_graph.add_edge(
+                        self.cell_map[precedent_address.address], dependant)
+        except Exception:
+            # the ranges queued by a build which failed are calculated when
+            # they are read, not by the next build, which may not need them
+            self.range_todos = []
+            raise
 
         # calc the values for ranges
         try:
